@@ -135,11 +135,17 @@ func (e *Encoder) Encode(obus [][]byte) ([]*rtp.Packet, error) {
 				break
 			}
 
+			// whether a fragment of the OBU has been written in the current packet.
+			// when there's no room for it, the OBU starts in the next packet
+			// and must not be flagged as a continuation.
+			fragmented := false
+
 			if omitSize {
 				if avail > 0 {
 					curPacket.Payload[0] |= byte((obusInPacket + 1) << 4) // W
 					curPacket.Payload = append(curPacket.Payload, obu[:avail]...)
 					obu = obu[avail:]
+					fragmented = true
 				}
 			} else {
 				if avail > maxFragmentedLEBSize {
@@ -152,11 +158,12 @@ func (e *Encoder) Encode(obus [][]byte) ([]*rtp.Packet, error) {
 					curPacket.Payload = append(curPacket.Payload, buf...)
 					curPacket.Payload = append(curPacket.Payload, obu[:fragmentLen]...)
 					obu = obu[fragmentLen:]
+					fragmented = true
 				}
 			}
 
-			finalizeCurPacket(true)
-			createNewPacket(true)
+			finalizeCurPacket(fragmented)
+			createNewPacket(fragmented)
 		}
 	}
 
